@@ -657,6 +657,8 @@ package gmars
 //@   ensures [C02][C13] old(cycleGuard(s)) ==> result == 0 && memSame(s) && s.cycleCount == old(s.cycleCount) && s.warriorLivingCount == old(s.warriorLivingCount)
 //@   ensures [C02][C13] !old(cycleGuard(s)) ==> (s.cycleCount == old(s.cycleCount) + 1 && result == s.warriorLivingCount)
 //@      || (s.cycleCount == old(s.cycleCount) && s.warriorCount > 1 && result == 1 && s.warriorLivingCount == 1)
+// the death that leaves a single survivor ends the cycle at once: that cycle is not counted
+//@   ensures [C02][C13] s.warriorCount > 1 && old(s.warriorLivingCount) > 1 && s.warriorLivingCount == 1 ==> s.cycleCount == old(s.cycleCount) && result == 1
 //@   ensures [C15][C04] s.wtermCount - old(s.wtermCount) == old(s.warriorLivingCount) - s.warriorLivingCount
 // living-count discipline (C04): the count drops by exactly the number of warriors that went from alive to dead; nobody becomes alive
 //@   ensures [C04] forall j :: 0 <= j && j < s.warriorCount ==> s.warriors[j].state == old(s.warriors[j].state) || (old(s.warriors[j].state) == WarriorAlive && s.warriors[j].state == WarriorDead)
@@ -666,6 +668,7 @@ package gmars
 //@   loop 1
 //@     invariant simInv(s) && 0 <= i && i <= s.warriorCount
 //@     invariant s.warriorLivingCount <= old(s.warriorLivingCount) && s.warriorLivingCount >= old(s.warriorLivingCount) - i && old(s.warriorLivingCount) >= 1
+//@     invariant [C02][C13] (s.warriorCount > 1 && old(s.warriorLivingCount) > 1 ==> s.warriorLivingCount > 1) && s.cycleCount == old(s.cycleCount)
 //@     invariant [C15][C04] s.wtermCount - old(s.wtermCount) == old(s.warriorLivingCount) - s.warriorLivingCount
 //@     invariant [C04] forall j :: 0 <= j && j < s.warriorCount ==> s.warriors[j].state == old(s.warriors[j].state) || (old(s.warriors[j].state) == WarriorAlive && s.warriors[j].state == WarriorDead)
 //@     invariant [C02] forall j :: 0 <= j && j < i ==> s.popW[j] == old(s.popW[j]) + ite(old(s.warriors[j].state) == WarriorAlive, 1, 0)
@@ -1651,8 +1654,8 @@ package gmars
 //@   modifies p.*, p.lines[*], p.symbols[*], p.references[*], p.currentLine.labels[*], p.currentLine.a[*], p.currentLine.b[*], ghost p.lex.*
 //@   ensures parserOK(p)
 //@   ensures [C05] parStep(p, result, old(parMu(p, parseExprA)))
-//@   ensures [C03] result == parseLine ==> lineEmitted(p)
-//@   ensures [C03] p.err == nil && (p.nextToken.typ == tokNewline || p.nextToken.typ == tokEOF) ==> result == parseLine
+//@   ensures [C03][C09] result == parseLine ==> lineEmitted(p)
+//@   ensures [C03][C09] p.err == nil && (p.nextToken.typ == tokNewline || p.nextToken.typ == tokEOF) ==> result == parseLine
 //@   loop 1
 //@     invariant parserOK(p) && p.symbols == old(p.symbols) && p.references == old(p.references)
 //@     invariant parSame(p) && (parLeft(p) < old(parLeft(p)) || (parLeft(p) == old(parLeft(p)) && p.nextToken == old(p.nextToken)))
@@ -1677,8 +1680,8 @@ package gmars
 //@   modifies p.*, p.lines[*], p.symbols[*], p.references[*], p.currentLine.labels[*], p.currentLine.a[*], p.currentLine.b[*], ghost p.lex.*
 //@   ensures parserOK(p)
 //@   ensures [C05] parStep(p, result, old(parMu(p, parseExprB)))
-//@   ensures [C03] result == parseLine ==> lineEmitted(p)
-//@   ensures [C03] p.err == nil && (p.nextToken.typ == tokEOF) ==> result == parseLine
+//@   ensures [C03][C09] result == parseLine ==> lineEmitted(p)
+//@   ensures [C03][C09] p.err == nil && (p.nextToken.typ == tokEOF) ==> result == parseLine
 //@   loop 1
 //@     invariant parserOK(p) && p.symbols == old(p.symbols) && p.references == old(p.references)
 //@     invariant parSame(p) && (parLeft(p) < old(parLeft(p)) || (parLeft(p) == old(parLeft(p)) && p.nextToken == old(p.nextToken)))
